@@ -1811,7 +1811,9 @@ impl<'a> Iterator for CommentReducer<'a> {
                 if c == '*' {
                     c = self.iter.next()?;
                 }
-            } else if c == '\n' {
+                self.at_start_line = false;
+            }
+            if c == '\n' {
                 self.at_start_line = true;
             }
             if !c.is_whitespace() {
